@@ -41,6 +41,46 @@ fn main() {
       }
     }
   }
+  // Every unit runs on a thread that has already handled a document with embedded languages (an
+  // HTML page with a script and a style: `get_injections` restricts a parser to byte ranges) and a
+  // pattern in another language: whatever the library keeps per thread between documents — a
+  // re-used parser, a cache — is then part of every later parse, as it is for the second file a
+  // walker thread of the CLI visits. What a parse yields must not depend on that history: the
+  // same texts parsed on a fresh thread give the reference (`thread_state`, reported by every unit).
+  let thread_state = if unit == "tables" {
+    None
+  } else {
+    use ast_grep_core::{Language as _, Pattern};
+    use ast_grep_language::SupportLang;
+    let page = "<html>\n<head>\n<style>\n  a { color: red }\n</style>\n</head>\n<body>\n<script>\n  let answer = compute(6, 7)\n</script>\n</body>\n</html>\n";
+    let doc = SupportLang::Html.ast_grep(page);
+    let inj = doc.inner.get_injections(|s| s.parse::<SupportLang>().ok());
+    let _ = inj.iter().map(|d| d.root().dfs().count()).sum::<usize>();
+    let probe = || -> Vec<String> {
+      let mut v = vec![];
+      for (lang, text) in [
+        (SupportLang::JavaScript, "const total = compute(left, right);\nfoo(1)\n"),
+        (SupportLang::Python, "def f(a):\n    return compute(a, 2)\n"),
+        (SupportLang::Rust, "fn main() { let x = compute(1, 2); }\n"),
+      ] {
+        let g = lang.ast_grep(text);
+        v.push(g.root().dfs().map(|n| format!("{}:{}-{}", n.kind(), n.range().start, n.range().end)).collect::<Vec<_>>().join(" "));
+        v.push(match Pattern::try_new("compute($A, $B)", lang) {
+          Ok(p) => g.root().find_all(&p).map(|m| m.text().to_string()).collect::<Vec<_>>().join("|"),
+          Err(e) => format!("pattern error: {e}"),
+        });
+      }
+      v
+    };
+    let here = std::panic::catch_unwind(std::panic::AssertUnwindSafe(probe)).unwrap_or_else(|_| vec!["panic".into()]);
+    let fresh = std::thread::spawn(move || std::panic::catch_unwind(std::panic::AssertUnwindSafe(probe)).unwrap_or_else(|_| vec!["panic".into()])).join().unwrap_or_default();
+    if here == fresh {
+      None
+    } else {
+      Some(serde_json::json!({"fp": "a parse depends on what the thread parsed before (after get_injections on an HTML page)",
+        "page": page, "after_injection": here, "fresh_thread": fresh}))
+    }
+  };
   let thorough = tier == "thorough";
   let ctx = units::Ctx {
     seed,
@@ -48,6 +88,7 @@ fn main() {
     rest,
   };
   if unit == "tables" {
+    // (not after the prelude's verdict: the tables come from the language crate's own data)
     print!("{}", units::tables::generate());
     return;
   }
@@ -65,6 +106,15 @@ fn main() {
     return;
   }
   let mut o = Out::new(out.as_deref());
+  match &thread_state {
+    Some(d) => {
+      // nothing a unit does on this thread can be trusted now: report and stop
+      o.oracle("thread-state", false, d.clone());
+      o.finish();
+      return;
+    }
+    None => o.oracle("thread-state", true, serde_json::json!({"cases": 1})),
+  }
   let mut rng = Rng::new(seed);
   if !units::run(&unit, &ctx, &mut rng, &mut o) {
     eprintln!("unknown unit {unit}");
